@@ -225,12 +225,60 @@ class Ctx:
         if rc != 0 or not lines:
             raise RuntimeError(f'harness {script} failed (rc={rc}):\n{out[-3000:]}')
         res = json.loads(lines[-1][7:])
+        self._history_pass(script, payload, res, timeout)
         # a harness may evaluate parts of the property statement itself (e.g. independence of the call history)
         # and hand the violations it saw to the driver
         if isinstance(res, dict):
             for v in res.get('harness_violations') or []:
                 self.violation(v['key'], v['what'], v.get('replay'))
         return res
+
+    # ---------------------------------------------------------------- independence of the call history
+    # harness script -> (key of the case list in the payload, key of the result list): for these harnesses every case
+    # is a pure function of its own description, so evaluating the SAME cases in reverse order in a fresh process
+    # must give identical results; a difference means the package keeps state between calls (a cache keyed too
+    # coarsely, a module-level table updated in place) - a violation of "results do not depend on call history"
+    # which every property about returned values presupposes.  Done once per check run and harness (the first call
+    # with at least 8 cases).
+    HISTORY = {'c04_impl.py': ('groups', 'groups'), 'c05_impl.py': ('groups', 'groups'), 'c08_impl.py': ('groups', 'groups'),
+               'c10_impl.py': ('cases', 'cases'), 'c11_impl.py': ('cases', 'cases'), 'c16_impl.py': ('groups', 'groups'),
+               'c19_impl.py': ('cases', 'cases'), 'c20_atten.py': ('groups', 'groups'), 'c02_impl.py': ('groups', 'groups')}
+
+    def _history_pass(self, script, payload, res, timeout):
+        cfg = self.HISTORY.get(script)
+        if not cfg or os.environ.get('VERIF_NO_HISTORY_PASS') or script in getattr(self, '_hist_done', set()):
+            return
+        pk, rk = cfg
+        if not isinstance(payload, dict) or not isinstance(payload.get(pk), list) or len(payload[pk]) < 8:
+            return
+        if not isinstance(res, dict) or not isinstance(res.get(rk), list) or len(res[rk]) != len(payload[pk]):
+            return
+        self._hist_done = getattr(self, '_hist_done', set()) | {script}
+        p2 = dict(payload)
+        p2[pk] = list(reversed(payload[pk]))
+        path = os.path.join(VERIF, 'tools', 'harness', script)
+        t = time.time()
+        rc, out = sh([PY, path], timeout=timeout, input=json.dumps(p2), cwd=VERIF)
+        lines = [l for l in clean_out(out).splitlines() if l.startswith('RESULT ')]
+        if rc != 0 or not lines:
+            self.note(f'history pass of {script} did not complete (rc={rc})')
+            return
+        r2 = json.loads(lines[-1][7:]).get(rk)
+        if not isinstance(r2, list) or len(r2) != len(res[rk]):
+            self.note(f'history pass of {script}: result list of another length')
+            return
+        r2 = list(reversed(r2))
+        n_diff = 0
+        for case, a, b in zip(payload[pk], res[rk], r2):
+            if json.dumps(a, sort_keys=True, default=str) != json.dumps(b, sort_keys=True, default=str):
+                n_diff += 1
+                if n_diff == 1:
+                    self.violation(f'history-dependent-result:{script}',
+                                   f'the implementation answers the same case differently depending on the calls made before it '
+                                   f'in the same process ({script}: cases evaluated in the given order vs. in reverse order in a '
+                                   f'fresh process)', {'case': case, 'given_order': a, 'reverse_order': b})
+        self.coverage.setdefault('history_pass', {})[script] = {'cases': len(r2), 'differing': n_diff}
+        print(f'[impl] {script} history pass ({time.time() - t:.1f}s): {n_diff} of {len(r2)} cases differ')
 
     # ---------------------------------------------------------------- Coq evaluation of cases
     def coq_eval_shards(self, header, case_terms, footer_fn, shard=400, prefix='cases', timeout=900):
